@@ -144,3 +144,7 @@ pub use crate::types::*;
 // internal modules
 mod common;
 mod tcp;
+
+#[cfg(feature = "verif-hooks")]
+#[allow(missing_docs, unreachable_pub, missing_copy_implementations)]
+pub mod verif;
